@@ -13,12 +13,20 @@
    * every constructor call, every helper call without _inplace=True and every
      deepcopy — whether it raises or not — writes no pre-existing cell;
    * every in-place operation on a frozen instance writes no pre-existing cell.
-   In-place operations on non-frozen instances (single write at the end of
-   mutate_attr / the inserter) are covered by the correspondence and the C04
-   oracle only. *)
+   * obj.a = v, and every attribute-level and element-level helper called with
+     _inplace=True (with_/update_/transform_/reset_<attr>, with_/update_/
+     transform_/without_<item> on list, dict and set attributes), on any
+     instance, frozen or not, when nothing is invalidated by the attribute: an
+     exception leaves every pre-existing cell unchanged (everything before the
+     first write to an old cell only allocates; the collection write is the last
+     step of its phase that can fail; the final mutate_attr cannot fail).
+   Not proved (correspondence and the C04 oracle only): in-place operations on
+   attributes that have dependants (invalidation follows the write), and the
+   top-level update/transform/reset(_inplace=True), for which the statement is
+   false (see the refutation below and KNOWN_FINDINGS.json). *)
 From Coq Require Import List ZArith Bool Arith.
 From SC Require Import Base.Res Inst.Heap Inst.ClassTable Inst.Model Inst.Framed Inst.FrameProofs
-  Inst.FrozenProofs Inst.AtomicProofs Props.C01 Props.C07.
+  Inst.FrozenProofs Inst.AtomicProofs Inst.AtomicElem Props.C01 Props.C07.
 Import ListNotations.
 Open Scope nat_scope.
 
@@ -84,6 +92,18 @@ Theorem C04_atomic_partial_inplace_with :
     frame (length (heap s)) s (snd (step ct roots (OpHelper x (HWith a) h) s)).
 Proof. intros ct Hct. intros. eapply inplace_with_op_err_frame; eauto. Qed.
 
+(* every attribute-level / element-level helper with _inplace=True *)
+Theorem C04_atomic_partial_inplace_attribute_and_element_helpers :
+  forall ct, no_dnc_classes ct ->
+  forall roots x hp a h s l c d k e,
+    inplace_attr_helper hp = Some a ->
+    nth x roots VNone = VRef l -> l < length (heap s) ->
+    nth_error (heap s) l = Some (OInst c d) -> lookup_cls ct c = Some k ->
+    no_dependants k a -> h_inplace h = true ->
+    fst (step ct roots (OpHelper x hp h) s) = Err e ->
+    frame (length (heap s)) s (snd (step ct roots (OpHelper x hp h) s)).
+Proof. intros ct Hct. intros. eapply inplace_attr_helper_op_err_frame; eauto. Qed.
+
 (* the known finding, as a theorem about the faithful model *)
 Definition kf_ct : ctable :=
   [mkcls 1 [mkattr 2 TStr VMissing None 1 true false None None [];
@@ -105,10 +125,30 @@ Example C04_nonvacuous :
     = (Err TypeErr, kf_state).
 Proof. split; vm_compute; reflexivity. Qed.
 
+(* non-vacuity of the in-place element theorem: with_item(_inplace=True) of an
+   ill-typed element on a list attribute raises after the item was prepared,
+   and the heap is as it was *)
+Definition el_ct : ctable :=
+  [mkcls 1 [mkattr 1 (TList TInt) VMissing None 1 true false None None []]
+         false false None [1] 1 [] None None].
+Definition el_state : state := mkst [OList [VInt 1]; OInst 1 [(1, VRef 0)]] 0 None.
+Definition el_call : op :=
+  OpHelper 0 (HWithItem 1) (mkh [VStr 7] true true VMissing false None None [] None).
+Example C04_inplace_element_nonvacuous :
+  inplace_attr_helper (HWithItem 1) = Some 1 /\
+  (exists k, lookup_cls el_ct 1 = Some k /\ no_dependants k 1) /\
+  exists e, step el_ct [VRef 1] el_call el_state = (Err e, el_state).
+Proof.
+  split; [reflexivity|]. split; [eexists; split; [reflexivity|reflexivity]|].
+  eexists. vm_compute. reflexivity.
+Qed.
+
 Print Assumptions C04_atomic_partial_cow_and_constructors.
 Print Assumptions C04_atomic_partial_frozen_inplace.
 Print Assumptions C04_constructor_result_is_fresh.
 Print Assumptions C04_atomic_partial_assignment.
 Print Assumptions C04_atomic_partial_inplace_with.
+Print Assumptions C04_atomic_partial_inplace_attribute_and_element_helpers.
+Print Assumptions C04_inplace_element_nonvacuous.
 Print Assumptions C04_multi_keyword_inplace_update_refuted.
 Print Assumptions C04_nonvacuous.
